@@ -360,9 +360,9 @@ func (b *ByteBuffer) PrepareRead(n int) (err error) {
 // in the callback and the unused bytes will be used in future claims.
 func (b *ByteBuffer) Claim(fn func(b []byte) int) {
 	n := fn(b.data[b.wi:cap(b.data)])
-	if wi := b.wi + n; n >= 0 && wi <= cap(b.data) {
-		// wi <= cap(b.data) because the invariant is that b.wi = min(len(b.data), cap(b.data)) after each call
-		b.wi = wi
+	if n >= 0 && n <= cap(b.data)-b.wi {
+		// b.wi + n <= cap(b.data) because the invariant is that b.wi = min(len(b.data), cap(b.data)) after each call
+		b.wi += n
 		b.data = b.data[:b.wi]
 	}
 }
@@ -372,7 +372,8 @@ func (b *ByteBuffer) Claim(fn func(b []byte) int) {
 // Callers do not have the option to write less than they claim. The write area
 // will grow by `n`.
 func (b *ByteBuffer) ClaimFixed(n int) (claimed []byte) {
-	if wi := b.wi + n; n >= 0 && wi <= cap(b.data) {
+	if n >= 0 && n <= cap(b.data)-b.wi {
+		wi := b.wi + n
 		claimed = b.data[b.wi:wi]
 		b.wi = wi
 		b.data = b.data[:b.wi]
